@@ -5,7 +5,12 @@ P=$1; ID=$2; TIER=${3:-quick}
 cd /repo || exit 2
 git diff --quiet || { echo "/repo not clean"; exit 2; }
 git apply "$P" || { echo "patch does not apply"; exit 2; }
-( cd /verif && ./check "$ID" "$TIER" 2>&1 | cut -c1-900 ); rc=${PIPESTATUS[0]}
+BEFORE=$(ls /verif/replays/$ID 2>/dev/null | sort)
+( cd /verif && ./check "$ID" "$TIER" > /tmp/seedtest-$ID.out 2>&1 ); rc=$?
+grep -o "^VIOLATION[^:]*::.\{0,160\}" /tmp/seedtest-$ID.out | awk '!seen[$3]++' | head -${SEEDTEST_LINES:-6}
+grep -E "^(RESULT|INCONCLUSIVE|BUILD-FAILED|KNOWN)" /tmp/seedtest-$ID.out | cut -c1-300 | head -8
+# witnesses of a seeded run are not kept
+for f in $(ls /verif/replays/$ID 2>/dev/null | sort); do echo "$BEFORE" | grep -qx "$f" || rm -f "/verif/replays/$ID/$f"; done
 git -C /repo checkout -- . ; git -C /repo clean -fdq -e _seed >/dev/null 2>&1
 ( cd /verif && git checkout -q -- evidence 2>/dev/null )
 echo "seedtest rc=$rc"
